@@ -35,6 +35,8 @@ generator}.go by the correspondence channel `scope` (checks/C03.py); the referen
                                 table nor what a captured stack reads.
 6. `lookup_sound`               simulation statement against the reference environment (`Sim`),
                                 with the preserved part named in `sim_preserved_partial`.
+7. (Props/C03Sim.lean)          on the fragment proved by the C02 simulation: lexical scoping end
+                                to end (`lexical_scoping_on_fragment`), `Sim` from `Sim.RelF`.
 -/
 import ZygoVerif.Proofs.ScopeGen
 import ZygoVerif.Proofs.ScopeSim
@@ -417,8 +419,12 @@ def SimPreservedFull : Prop :=
 change on both sides), `CreateClosure` (needs the heap-wide invariant "the captured stack +
 parent chain of every closure corresponds to the environment of the reference closure" and a
 value translation `φ` that grows), call / return / self tail call (`AddFuncScope` on the
-callee's captured chain), `apply`/`map`, lazy arguments. Those are held by the 3-way
-correspondence of channel `scope`, not by a theorem. -/
+callee's captured chain), `apply`/`map`, lazy arguments. Per instruction those are held by
+the 3-way correspondence of channel `scope`, not by a theorem. Per EXPRESSION, on the fragment
+of the language for which the C02 simulation proofs hold, they are theorems: see
+`Props/C03Sim.lean` (`simX_of_relF`: the relation `Sim.RelF` maintained there implies `Sim`
+up to the order of bindings inside a frame; `sim_preserved_on_fragment`;
+`lexical_scoping_on_fragment` and its corollaries). -/
 theorem sim_preserved_partial {ρ : Nat → Nat} {φ : Val → Val} {s : St} {rs : Ref.St} {env : Nat} (n : Nat)
     (h : Sim ρ φ s rs env) (w : WF s)
     (hrange : ∀ id ∈ lexCore s, ρ id < rs.frames.length)
